@@ -290,6 +290,27 @@ def permutation(x):
     return Generator._permutation(GLOBAL, x)
 
 
+def shuffle(x):
+    return Generator(None, None)._shuffle_on(GLOBAL, x)
+
+
+def random_sample(size=None):
+    return _uniform(GLOBAL, 0.0, 1.0, size)
+
+
+random = random_sample
+
+
+def standard_normal(size=None):
+    return _normal(GLOBAL, 0.0, 1.0, size)
+
+
+def randint(low, high=None, size=None, dtype=None):
+    g = Generator(None, None)
+    g._s = GLOBAL
+    return g.integers(low, high, size)
+
+
 def multivariate_normal(mean, cov, size=None, check_valid='warn', tol=1e-8):
     return _mvn(GLOBAL, mean, cov, size)
 
@@ -349,7 +370,7 @@ def _mvn(stream, mean, cov, size):
 
 class Generator:
     def __init__(self, state, label):
-        self._s = _Stream(state, label)
+        self._s = _Stream(state, label) if label is not None else None
 
     def uniform(self, low=0.0, high=1.0, size=None):
         return _uniform(self._s, low, high, size)
@@ -408,8 +429,11 @@ class Generator:
         return Generator._permutation(self._s, x)
 
     def shuffle(self, x, axis=0):
+        return self._shuffle_on(self._s, x)
+
+    def _shuffle_on(self, stream, x):
         if isinstance(x, list):
-            out = _permuted_items(self._s, list(x), 'shuffle')
+            out = _permuted_items(stream, list(x), 'shuffle')
             x[:] = out
             return None
         if isinstance(x, np.ndarray):
@@ -417,7 +441,7 @@ class Generator:
                 raise TypeError("len() of unsized object")
             n = x.shape[0]
             items = [x[i].copy() if isinstance(x[i], np.ndarray) else x[i] for i in range(n)]
-            out = _permuted_items(self._s, items, 'shuffle')
+            out = _permuted_items(stream, items, 'shuffle')
             if n > 1:
                 for i in range(n):
                     x[i] = out[i]
